@@ -83,3 +83,15 @@ func TestVerifC01Concurrent(t *testing.T) {
 	rec := vk.New(t, "C01", "coreConcurrent")
 	rapid.Check(t, func(t *rapid.T) { c01RunConcurrent(t, rec, c01NewCoreDriver) })
 }
+
+func TestVerifC01CoreParked(t *testing.T) {
+	c01Quiet()
+	rec := vk.New(t, "C01", "coreParkedReserve")
+	rapid.Check(t, func(t *rapid.T) { c01RunParked(t, rec, c01NewCoreDriver) })
+}
+
+func TestVerifC01ConcurrentBurst(t *testing.T) {
+	c01Quiet()
+	rec := vk.New(t, "C01", "coreConcurrentBurst")
+	rapid.Check(t, func(t *rapid.T) { c01RunBurst(t, rec, c01NewCoreDriver) })
+}
